@@ -49,6 +49,7 @@ def run(idx: ProgramIndex, rep: Report, tier: str):
     no_absolute_rank(idx, rep)
     two_d_primitives_guarded(idx, rep)
     own_leading_shape(idx, rep)
+    result_buffers_broadcast(idx, rep)
 
 
 def _families(idx: ProgramIndex) -> List[ClassInfo]:
@@ -633,3 +634,47 @@ def own_leading_shape(idx: ProgramIndex, rep: Report):
                             "`%s` takes its leading dims from `%s`, another tensor's batch shape: when the batch is carried by an operand that tensor does not see (shared inputs under batched hyper-parameters; a batch that only targets or noise carry) the call raises 'shape is invalid for input of size'" % (
                                 " ".join(src(c).split())[:60], btxt[:50]), {})
     rep.floor("C08-10", "view / reshape calls with a starred leading shape", n, 5)
+
+
+# ---- C08-11 --------------------------------------------------------------------------------------------------------
+def result_buffers_broadcast(idx: ProgramIndex, rep: Report):
+    """A kernel that assembles its result in a pre-allocated buffer (`K = torch.zeros(*B, rows, cols)`; blocks are stored into slices)
+    fixes the batch shape of the result by B.  The batch shape of K(x1, x2) is the broadcast of the batch shapes of x1, x2 and the
+    kernel's parameters; a B taken from x1 alone makes the block stores fail (or silently drop a batch) whenever x2 or the parameters
+    carry the batch - e.g. batched hyper-parameters on shared inputs, which every other kernel handles by broadcasting."""
+    rep.rule("C08-11", "result buffers allocated in kernel forward code take the broadcast batch shape of both inputs and the parameters, not the batch shape of one input")
+    from ..symbolic import inline, walk_paths
+    n = 0
+    for cls in _families(idx):
+        fi = cls.methods.get("forward")
+        if fi is None or len(fi.params) < 3:
+            continue
+        x1, x2 = fi.params[1], fi.params[2]
+        allocs = [c for c in calls_in(fi.node) if (chain(c.func) or "") in ("torch.zeros", "torch.empty", "torch.ones") and any(isinstance(a, ast.Starred) for a in c.args)]
+        stores = any(isinstance(a, ast.Assign) and any(isinstance(t, ast.Subscript) for t in a.targets) for a in ast.walk(fi.node))
+        if not allocs or not stores:
+            continue
+        n += 1
+        probs = set()
+        for path, seq in walk_paths(fi, limit=300):
+            for st, env in seq:
+                if not isinstance(st, ast.Assign) or len(st.targets) != 1 or not isinstance(st.targets[0], ast.Name):
+                    continue
+                v = st.value
+                if not (isinstance(v, ast.Call) and (chain(v.func) or "") in ("torch.zeros", "torch.empty", "torch.ones")):
+                    continue
+                # only buffers that later receive block stores
+                name = st.targets[0].id
+                if not any(isinstance(a, ast.Assign) and any(isinstance(t, ast.Subscript) and isinstance(t.value, ast.Name) and t.value.id == name for t in a.targets) for a in ast.walk(fi.node)):
+                    continue
+                for a in v.args:
+                    if isinstance(a, ast.Starred):
+                        b = inline(a.value, env)
+                        t = " ".join(src(b).split())
+                        one_input = isinstance(b, ast.Subscript) and isinstance(b.value, ast.Attribute) and b.value.attr == "shape" and isinstance(b.value.value, ast.Name) and b.value.value.id in (x1, x2)
+                        if one_input and "broadcast_shapes" not in t:
+                            probs.add("the buffer `%s = %s` takes its batch shape from `%s` alone" % (name, " ".join(src(v).split())[:50], t))
+        rep.add("C08-11", "%s:%s.forward[result buffer]" % (cls.module.name, cls.qualname), fi.where, not probs,
+                "result buffers take a broadcast batch shape" if not probs else
+                "; ".join(sorted(probs)) + ": with a batch carried by the other input or by the kernel's parameters (batch_shape=[b] on shared inputs) the block stores raise, while every kernel that computes its result by broadcasting handles the same call", {})
+    rep.floor("C08-11", "kernels assembling their result in a pre-allocated buffer", n, 3)
